@@ -64,13 +64,15 @@ def gen_history(rng, S, nops):
             op = {"op": "sub_component" if rng.random() < 0.4 else "sub", "initial": initial, "cookie_header": None, "accept_language": None}
             if parent is not None:
                 op["parent"] = parent
+                if rng.random() < 0.2:
+                    op["op"] = "sub_block"      # created by the init function inside a reactive block
             same_tick = rng.random() < 0.4
             if same_tick:
                 op["notick"] = True
             ops.append(op)
             regs.append(initial or (regs[handle_reg[parent]] if parent is not None else S["default"]))
             handle_reg.append(len(regs) - 1)
-            handle_base.append(True)
+            handle_base.append(op["op"] != "sub_block")
             depth.append((depth[parent] + 1) if parent is not None else 0)
             if same_tick:
                 # the locale is set in the very tick the context was created (before its effects are flushed)
@@ -140,6 +142,14 @@ def run(tier, seed, replay=None):
             continue
         bad = False
         for step, (st, (want_handles, want_acc)) in enumerate(zip(o["steps"], expected)):
+            for h, rd in enumerate(st["reads"]):
+                if rd.get("runs") is not None:
+                    res.ev()
+                    res.count("block-created-subcontext-reads")
+                    if rd["runs"] != 1:
+                        res.violation("C16/subcontext-recreated-by-a-change-of-its-parent", "history %d step %d (%s): the block that created handle %d has run %d times" % (
+                            i, step, ops[step], h, rd["runs"]), {"set": si, "ops": ops[:step + 1], "step": step, "handle": h})
+                        bad = True
             for h, (rd, want) in enumerate(zip(st["reads"], want_handles)):
                 for field in ("untracked", "tracked", "string"):
                     res.ev()
